@@ -27,6 +27,7 @@ type Opts struct {
 	NoMmap     bool
 	IntroGates bool // gate the introducer at the start of a persist swap / merge introduction
 	NapUnderNumFiles int // PersisterNapUnderNumFiles (0 = default 1000): small values make the persister wait for the merger
+	ReuseBatch bool // every caller re-uses one Batch object (Reset between calls)
 }
 
 // Sys is one incarnation of a writer under the controller.
@@ -46,6 +47,7 @@ type Sys struct {
 	AsyncErrs int
 	stop      chan struct{}
 	iw        *index.Writer
+	batches   map[string]*index.Batch
 }
 
 // Stop ends the harness-owned analysis workers.
@@ -313,7 +315,11 @@ type Op struct {
 // document stores its id, the uid and its position so that each version of a
 // document is distinguishable.
 func MakeBatch(uid int, ops []Op) (*index.Batch, []string, []string) {
-	b := bluge.NewBatch()
+	return MakeBatchInto(bluge.NewBatch(), uid, ops)
+}
+
+// MakeBatchInto fills a batch that may have been used (and Reset) before.
+func MakeBatchInto(b *index.Batch, uid int, ops []Op) (*index.Batch, []string, []string) {
 	dels, adds := []string{}, []string{}
 	k := 0
 	for _, op := range ops {
@@ -342,7 +348,25 @@ func MakeBatch(uid int, ops []Op) (*index.Batch, []string, []string) {
 
 // DoBatch performs one client call: Invoke event, the real Batch, Return event.
 func (s *Sys) DoBatch(proc string, uid int, ops []Op, withCallback bool) error {
-	b, dels, adds := MakeBatch(uid, ops)
+	var b *index.Batch
+	var dels, adds []string
+	if s.O.ReuseBatch {
+		// one Batch object per caller, Reset between calls (the documented way to avoid allocations)
+		s.mu.Lock()
+		if s.batches == nil {
+			s.batches = map[string]*index.Batch{}
+		}
+		b = s.batches[proc]
+		if b == nil {
+			b = bluge.NewBatch()
+			s.batches[proc] = b
+		}
+		s.mu.Unlock()
+		b.Reset()
+		b, dels, adds = MakeBatchInto(b, uid, ops)
+	} else {
+		b, dels, adds = MakeBatch(uid, ops)
+	}
 	if withCallback {
 		b.SetPersistedCallback(func(err error) {
 			s.C.Log("Callback", "uid", uid, "err", errStr(err))
